@@ -300,7 +300,7 @@ def rule_ep(ctx):
                 ok = const_int(v) == 0 or b.key == "board::ply::builder::Builder::build" or b.key.startswith("<board::ply::Ply as")
                 ctx.check(ok, "Ply-literal:%s" % b.key, "Ply literal in %s does not set is_double_pawn_push (or is the builder / a derive)" % C.short(b.key), b.where(bi),
                           bad_what="%s builds a Ply with is_double_pawn_push from `%s`" % (b.key, mir.opstr(v)))
-    ctx.floor("Ply literals", n_lit, 3)
+    ctx.floor("Ply literals", n_lit, 2)
 
 
 def rule_fullmove(ctx):
